@@ -69,14 +69,14 @@ CHECKS.update({
         text='Proved once (Coq, reals): Rastrigin and XSquared in EVERY dimension have value 0 at the origin, no lower point and no other minimiser; the generic Hill and Shekel functions are differentiable with the stated derivatives. '
              'Per instance, regenerated from the Calculate sources and tables on every run (closed forms obtained by symbolic evaluation of the source, tied by reflexivity to the generic family on that table): '
              'value at the declared point within 1e-4, global lower bound with the 2e-3 slack over the whole continuous box, and strict separation of everything outside the 0.5% neighbourhood - closed by the interval tactic '
-             '(kernel-checked interval arithmetic): quick = seeded sample of Hill/Shekel + all Shekel4; thorough = all 1000+1000+3. Formula-vs-Calculate comparison at random points; multistart numeric search on every family '
+             '(kernel-checked interval arithmetic): quick = 10+10 seeded rows of Hill/Shekel + all Shekel4 + StronginC3; thorough = 100+100 rows chosen by --seed; `bin/check C10 --tier thorough --all-rows` proves all 1000+1000 (hours). Formula-vs-Calculate comparison at random points; multistart numeric search on every family '
              '(incl. Grishagin, GKLS, StronginC3 objective) for a concrete lower point.',
-        design='5 C10', note=TB + 'coq-interval + Coquelicot and the standard-library real-number axioms (listed in evidence); decimal table literals used as written; GKLS structure is claimed under C14; Grishagin and the constrained StronginC3 statement are covered by numeric search only (partial).',
+        design='5 C10', note=TB + 'coq-interval + Coquelicot and the standard-library real-number axioms (listed in evidence); decimal table literals used as written; GKLS structure is claimed under C14; StronginC3 is proved over its feasible set by a Lagrangian-relaxation certificate checked by interval (multiplier found numerically, untrusted); Grishagin is covered by numeric search only (partial).',
         technique='Rocq proof: closed-form theorems for all dimensions + per-instance interval-arithmetic proofs generated from the source'),
     'C18': dict(
         text='Metadata: constructors of the parametric families modelled and proved well-formed for every dimension n >= 1; for the finite families every instance is constructed and the dump is checked by the kernel (forallb wf_meta). '
              'Tables: per row, regenerated from the source on every run: tabulated minimum and maximum values within 1e-4 (value at the tabulated location + global bound), derivative sign on both sides of each tabulated extremiser at 1e-4 of the range and separation beyond 0.5%, '
-             'every global extremiser within 1e-4 of the range of the tabulated one (mean value theorem, Problems/Locate.v), |f\'| <= 1.001 L on the whole range (hence Lipschitz) and a witness with |f\'| >= 0.999 L, f\' being the derivative by the family theorem (hill_derive / shekel_derive) and the reflexivity tie. quick = seeded rows, thorough = all 2 x 1000.',
+             'every global extremiser within 1e-4 of the range of the tabulated one (mean value theorem, Problems/Locate.v), |f\'| <= 1.001 L on the whole range (hence Lipschitz) and a witness with |f\'| >= 0.999 L, f\' being the derivative by the family theorem (hill_derive / shekel_derive) and the reflexivity tie. quick = 10+10 seeded rows, thorough = 100+100 rows chosen by --seed, `--all-rows` = all 2 x 1000 (hours).',
         design='5 C18', note=TB + 'coq-interval + Coquelicot + real-number axioms; the location and Lipschitz statements are derived per row from the interval lemmas by the mean-value theorems of Problems/Locate.v.',
         technique='Rocq proof: kernel-evaluated metadata predicate + per-row interval proofs generated from the tables'),
     'C05': dict(
